@@ -206,7 +206,10 @@ struct only_arith<tl<H, T...>> {
     using rest = typename only_arith<tl<T...>>::type;
     using type = std::conditional_t<std::is_arithmetic_v<H>, tl_cat_t<tl<tl<H>>, rest>, rest>;
 };
-using lim_cases = tl_cat_t<typename only_arith<zoo_t>::type, tl<tl<int*>, tl<zoo::Scoped>, tl<zoo::Empty>, tl<zoo::Agg>, tl<std::nullptr_t>>>;
+using lim_cases = tl_cat_t<typename only_arith<zoo_t>::type, tl<tl<int*>, tl<zoo::Scoped>, tl<zoo::Empty>, tl<zoo::Agg>, tl<std::nullptr_t>,
+                                tl<zoo::UnscopedBool>, tl<zoo::UnionTriv>, tl<zoo::Scoped const>, tl<int zoo::Agg::*>>>;
+// (__int128 is not in the list: libstdc++ 12 specialises numeric_limits for it only outside strict -std=c++2b mode,
+//  the oracle's answer depends on the dialect flag and not on the standard)
 #endif
 
 #if MC_PART == 2
